@@ -226,6 +226,10 @@ func (vc *FuncVC) execBuiltin(st *State, reach Term, ins *ssa.Call, b *ssa.Built
 				return
 			}
 		}
+		if isString(args[0].Type()) && b.Name() == "len" {
+			vc.vals[ins] = &Val{T: vc.strLen(vc.scalar(args[0])), GoType: ins.Type()}
+			return
+		}
 		c := vc.fresh("len", SInt)
 		vc.assume(And(Ge(c, IntLit(0)), Lt(c, BigLit(pow2big(62)))))
 		vc.vals[ins] = &Val{T: c, GoType: ins.Type()}
@@ -301,7 +305,16 @@ func (vc *FuncVC) execLibrary(st *State, reach Term, ins *ssa.Call, callee *ssa.
 			vc.declared[fname] = true
 			vc.decls = append(vc.decls, "(declare-fun "+fname+" (Int Int) Int)")
 		}
-		vc.vals[ins] = &Val{T: Eq(app(SInt, fname, vc.scalar(args[0]), vc.scalar(args[1])), IntLit(1)), GoType: rt}
+		hp := Eq(app(SInt, fname, vc.scalar(args[0]), vc.scalar(args[1])), IntLit(1))
+		// a string is at least as long as any prefix of it
+		vc.assume(Implies(hp, Ge(vc.strLen(vc.scalar(args[0])), vc.strLen(vc.scalar(args[1])))))
+		vc.vals[ins] = &Val{T: hp, GoType: rt}
+		return
+	case "strings.IndexByte", "strings.Index", "strings.IndexRune", "strings.LastIndexByte":
+		// -1, or a position inside the string
+		r := vc.fresh("stridx", SInt)
+		vc.assume(And(Le(IntLit(-1), r), Lt(r, vc.strLen(vc.scalar(args[0])))))
+		vc.vals[ins] = &Val{T: r, GoType: rt}
 		return
 	case "errors.New", "fmt.Errorf":
 		c := vc.fresh("err", SInt)
